@@ -27,6 +27,7 @@ Main theorems (namespace `Cooler.C15`)
   any files); `mv_source_gone_Statement Variant.current` is FALSE: `mv_source_gone_current_false`,
   `d4_counterexample`, and in general `mv_cross_eq_cp` / `mv_cross_file_keeps_source` (finding D4).
 * `list_exact` — `p ∈ listCoolers fs f ↔ isCooler fs f p` for well-formed link-free files;
+  `list_exact_history` — hence after ANY history of create / cp / mv / ln (hard) from the empty state;
   `d5_counterexample` — with an external link the code lists the target's internal name (finding D5).
 * `isCooler_total` — `false`, never an error, for unknown files, unresolvable paths, datasets.
 * `create_append_frame`, `create_root_append_frame` (unrelated attributes and all other objects
@@ -34,7 +35,8 @@ Main theorems (namespace `Cooler.C15`)
 
 Partial / not proved: `copy_reads_equal` for `mv` through links (only `mv_reads_equal_plain`);
 `list_exact` for files with soft links (the traversal and the resolver are both fuel-bounded; the
-correspondence covers them); `LinkFree` is a hypothesis of `list_exact`, not an invariant.
+correspondence covers them).  `LinkFree` is kept by every operation except `ln -s` (`step_lf`,
+`run_lf`), whence `list_exact_history`.
 -/
 namespace Cooler.C15
 open Cooler.FileModel
@@ -3098,4 +3100,360 @@ example :
       isCooler fs "A" ["nope"] = false ∧ isCooler fs "Z" ["a"] = false ∧
       listing fs Variant.current "A" = .ok [["a"]] := by
   decide
+
+/-! ### link-freeness is kept by every operation except `ln -s`: `list_exact` after any such history -/
+
+def LinkFreeFS (fs : FS) : Prop := ∀ f h, getFile fs f = some h → LinkFree h
+
+/-- a region without link entries -/
+def RegionLF (new : Entries) : Prop :=
+  ∀ r e, lookupK new r = some e → (∃ o a, e = .group o a) ∨ ∃ c, e = .dataset c
+
+def isObjB : Entry → Bool
+  | .group _ _ => true
+  | .dataset _ => true
+  | _ => false
+
+theorem regionLF_of_all {new : Entries} (h : new.all (fun p => isObjB p.2) = true) : RegionLF new := by
+  intro r e hr
+  rw [List.all_eq_true] at h
+  have := h _ (lookupK_mem hr)
+  cases e with
+  | group o a => exact Or.inl ⟨_, _, rfl⟩
+  | dataset c => exact Or.inr ⟨_, rfl⟩
+  | soft t => simp [isObjB] at this
+  | ext g t => simp [isObjB] at this
+
+theorem regionLF_coolerRegion (o c : Nat) : RegionLF (coolerRegion o c) := regionLF_of_all rfl
+
+theorem regionLF_parts (o c : Nat) : ∀ part ∈ payloadParts o c, RegionLF part.2 := by
+  intro part hp
+  simp only [payloadParts, List.mem_cons, List.not_mem_nil, or_false] at hp
+  rcases hp with rfl | rfl | rfl | rfl <;> exact regionLF_of_all rfl
+
+theorem regionLF_getRegion {h : H5File} (hl : LinkFree h) (S : Path) : RegionLF (getRegion h.entries S) := by
+  intro r e hr
+  rw [lookupK_getRegion] at hr
+  exact hl _ _ hr
+
+theorem regionLF_shift {new : Entries} (d : Nat) (hn : RegionLF new) : RegionLF (shiftOids d new) := by
+  intro r e hr
+  rw [lookupK_shiftOids] at hr
+  cases hr' : lookupK new r with
+  | none => simp [hr'] at hr
+  | some e' =>
+    simp only [hr', Option.map_some, Option.some.injEq] at hr
+    subst hr
+    rcases hn r e' hr' with ⟨o, a, rfl⟩ | ⟨c, rfl⟩
+    · exact Or.inl ⟨_, _, rfl⟩
+    · exact Or.inr ⟨_, rfl⟩
+
+theorem lf_emptyFile : LinkFree emptyFile := by
+  intro k e hk
+  simp only [emptyFile, lookupK] at hk
+  split at hk
+  · simp at hk; exact Or.inl ⟨_, _, hk.symm⟩
+  · simp at hk
+
+theorem lf_setEntry_group {h : H5File} (hl : LinkFree h) (k : Path) (o : Nat) (a : List (String × String)) (nx : Nat) :
+    LinkFree ⟨setEntry h.entries k (.group o a), nx⟩ := by
+  intro k' e hk
+  simp only [lookupK_setEntry] at hk
+  split at hk
+  · simp at hk; exact Or.inl ⟨_, _, hk.symm⟩
+  · exact hl _ _ hk
+
+theorem lf_putRegion {h : H5File} (hl : LinkFree h) (D : Path) {new : Entries} (hn : RegionLF new) (nx : Nat) :
+    LinkFree ⟨putRegion h.entries D new, nx⟩ := by
+  intro k e hk
+  simp only [lookupK_putRegion] at hk
+  split at hk
+  · exact hn _ _ hk
+  · exact hl _ _ hk
+
+theorem lf_removeUnder {h : H5File} (hl : LinkFree h) (L : Path) (nx : Nat) : LinkFree ⟨removeUnder L h.entries, nx⟩ := by
+  intro k e hk
+  simp only [lookupK_removeUnder] at hk
+  split at hk
+  · simp at hk
+  · exact hl _ _ hk
+
+theorem lf_setFile {fs : FS} (hl : LinkFreeFS fs) {f : String} {h : H5File} (hh : LinkFree h) :
+    LinkFreeFS (setFile fs f h) := by
+  intro g h' hg
+  rw [getFile_setFile] at hg
+  by_cases e : f = g
+  · simp [e] at hg; subst hg; exact hh
+  · simp [e] at hg; exact hl g h' hg
+
+theorem mkdirP_lf (fs : FS) (f : String) :
+    ∀ (q : List String) (h : H5File) (cur : Path) (h1 : H5File) (P : Path),
+      LinkFree h → mkdirP fs f h cur q = .ok (h1, P) → LinkFree h1 := by
+  intro q
+  induction q with
+  | nil =>
+    intro h cur h1 P hl hm
+    simp only [mkdirP, Except.ok.injEq, Prod.mk.injEq] at hm
+    obtain ⟨rfl, rfl⟩ := hm
+    exact hl
+  | cons x rest ih =>
+    intro h cur h1 P hl hm
+    rw [mkdirP] at hm
+    split at hm
+    · split at hm
+      · simp at hm
+      · exact ih _ _ h1 P (lf_setEntry_group hl _ _ _ _) hm
+    · exact ih _ _ h1 P hl hm
+    · simp at hm
+    · split at hm
+      · split at hm
+        · split at hm
+          · exact ih _ _ h1 P hl hm
+          · simp at hm
+        · simp at hm
+      · simp at hm
+    · simp at hm
+
+theorem placeAt_lf {fs : FS} (hl : LinkFreeFS fs) {f : String} {dp : Path} {new : H5File → Entries × Nat}
+    {ex : ErrClass} {fs' : FS} {oc : Outcome} (hrel : ∀ h1, RegionLF (new h1).1)
+    (h : placeAt fs f dp new ex = (fs', oc)) : LinkFreeFS fs' := by
+  by_cases hoc : oc = .ok
+  · subst hoc
+    obtain ⟨h0, h1, P, x, hg, _, hm, _, rfl⟩ := placeAt_ok h
+    exact lf_setFile hl (lf_putRegion (mkdirP_lf fs f _ h0 [] h1 P (hl f h0 hg) hm) _ (hrel h1) _)
+  · rw [placeAt_not_ok h hoc]; exact hl
+
+theorem deepCopyTo_lf {fs1 : FS} (hl : LinkFreeFS fs1) {g : String} {S : Path} {df : String} {dp : Path} {fs' : FS}
+    {oc : Outcome} (h : deepCopyTo fs1 g S df dp = (fs', oc)) : LinkFreeFS fs' := by
+  unfold deepCopyTo at h
+  split at h
+  · rw [← (Prod.mk.inj h).1]; exact hl
+  · rename_i hs hg
+    split at h
+    · exact placeAt_lf hl (fun h1 => regionLF_shift _ (regionLF_getRegion (hl g hs hg) S)) h
+    · rw [← (Prod.mk.inj h).1]; exact hl
+
+theorem unlink_lf {fs : FS} (hl : LinkFreeFS fs) {f : String} {p : Path} {fs' : FS} (h : unlink fs f p = .ok fs') :
+    LinkFreeFS fs' := by
+  obtain ⟨y, Ps, hh, _, _, hg, rfl⟩ := unlink_ok h
+  exact lf_setFile hl (lf_removeUnder (hl f hh hg) _ _)
+
+theorem hardLinkSame_lf {fs1 : FS} (hl : LinkFreeFS fs1) {sf : String} {sp dp : Path} {rename : Bool} {fs' : FS}
+    {oc : Outcome} (h : hardLinkSame fs1 sf sp dp rename = (fs', oc)) : LinkFreeFS fs' := by
+  unfold hardLinkSame at h
+  split at h
+  · rw [← (Prod.mk.inj h).1]; exact hl
+  · rename_i g S _
+    split at h
+    · rw [← (Prod.mk.inj h).1]; exact hl
+    · split at h
+      · rw [← (Prod.mk.inj h).1]; exact hl
+      · rename_i hs hg
+        have hrel : ∀ h1 : H5File, RegionLF ((fun h1 : H5File => (getRegion hs.entries S, h1.next)) h1).1 :=
+          fun _ => regionLF_getRegion (hl g hs hg) S
+        split at h
+        · split at h
+          · rename_i fs2 hp
+            have hl2 : LinkFreeFS fs2 := placeAt_lf hl hrel hp
+            split at h
+            · split at h
+              · rw [← (Prod.mk.inj h).1]; exact hl2
+              · split at h
+                · split at h
+                  · rename_i fs3 hun
+                    rw [← (Prod.mk.inj h).1]; exact unlink_lf hl2 hun
+                  · rw [← (Prod.mk.inj h).1]; exact hl2
+                · rw [← (Prod.mk.inj h).1]; exact hl2
+            · rw [← (Prod.mk.inj h).1]; exact hl2
+          · exact placeAt_lf hl hrel h
+        · rw [← (Prod.mk.inj h).1]; exact hl
+
+theorem copyChildren_lf {fs : FS} (hl : LinkFreeFS fs) (g : String) (S : Path) (df : String) :
+    ∀ (cs : List String) (h h1 : H5File) (oc : Outcome), LinkFree h →
+      copyChildren fs g S df h cs = (h1, oc) → LinkFree h1 := by
+  intro cs
+  induction cs with
+  | nil =>
+    intro h h1 oc hh hc
+    simp only [copyChildren, Prod.mk.injEq] at hc
+    rw [← hc.1]; exact hh
+  | cons x rest ih =>
+    intro h h1 oc hh hc
+    rw [copyChildren] at hc
+    split at hc
+    · rw [← (Prod.mk.inj hc).1]; exact hh
+    · split at hc
+      · rw [← (Prod.mk.inj hc).1]; exact hh
+      · rename_i g' Q _
+        split at hc
+        · rw [← (Prod.mk.inj hc).1]; exact hh
+        · split at hc
+          · rw [← (Prod.mk.inj hc).1]; exact hh
+          · rename_i hs hgs
+            exact ih _ h1 oc (lf_putRegion hh _ (regionLF_shift _ (regionLF_getRegion (hl g' hs hgs) Q)) _) hc
+
+theorem copyToRoot_lf {fs1 : FS} (hl : LinkFreeFS fs1) {g : String} {S : Path} {df : String} {fs' : FS} {oc : Outcome}
+    (h : copyToRoot fs1 g S df = (fs', oc)) : LinkFreeFS fs' := by
+  unfold copyToRoot at h
+  split at h
+  · rename_i hs hd hgs hgd
+    split at h
+    · split at h
+      · rw [← (Prod.mk.inj h).1]; exact hl
+      · split at h
+        · split at h
+          · rw [← (Prod.mk.inj h).1]; exact hl
+          · split at h
+            · rename_i h1 hcc
+              rw [← (Prod.mk.inj h).1]
+              exact lf_setFile hl (lf_setEntry_group (copyChildren_lf hl g S df _ hd h1 _ (hl df hd hgd) hcc) _ _ _ _)
+            · rename_i h1 oc' _ hcc
+              rw [← (Prod.mk.inj h).1]
+              exact lf_setFile hl (copyChildren_lf hl g S df _ hd h1 _ (hl df hd hgd) hcc)
+        · rw [← (Prod.mk.inj h).1]; exact hl
+    · rw [← (Prod.mk.inj h).1]; exact hl
+  · rw [← (Prod.mk.inj h).1]; exact hl
+
+theorem copyCross_lf {fs1 : FS} (hl : LinkFreeFS fs1) {v : Variant} {sf : String} {sp : Path} {df : String} {dp : Path}
+    {rename : Bool} {fs' : FS} {oc : Outcome} (h : copyCross fs1 v sf sp df dp rename = (fs', oc)) : LinkFreeFS fs' := by
+  unfold copyCross at h
+  split at h
+  · rw [← (Prod.mk.inj h).1]; exact hl
+  · rename_i g S _
+    have hl2 : ∀ fs2 oc2, (if dp = [] then copyToRoot fs1 g S df else deepCopyTo fs1 g S df dp) = (fs2, oc2) →
+        LinkFreeFS fs2 := by
+      intro fs2 oc2 h2
+      split at h2
+      · exact copyToRoot_lf hl h2
+      · exact deepCopyTo_lf hl h2
+    split at h
+    · rename_i fs2 h2
+      split at h
+      · split at h
+        · rename_i fs3 hun
+          rw [← (Prod.mk.inj h).1]; exact unlink_lf (hl2 _ _ h2) hun
+        · rw [← (Prod.mk.inj h).1]; exact hl2 _ _ h2
+      · rw [← (Prod.mk.inj h).1]; exact hl2 _ _ h2
+    · exact hl2 _ _ h
+
+theorem afterOpen_lf {fs : FS} (hl : LinkFreeFS fs) (df : String) (ow : Bool) : LinkFreeFS (afterOpen fs df ow) := by
+  unfold afterOpen
+  split
+  · exact lf_setFile hl lf_emptyFile
+  · exact hl
+
+theorem copyOp_lf {fs : FS} (hl : LinkFreeFS fs) {v : Variant} {sf : String} {sp : Path} {df : String} {dp : Path}
+    {ow link rename : Bool} {fs' : FS} {oc : Outcome}
+    (h : copyOp fs v sf sp df dp ow link rename false = (fs', oc)) : LinkFreeFS fs' := by
+  have hl1 := afterOpen_lf hl df ow
+  rcases copyOp_cases h with rfl | rfl | hb
+  · exact hl
+  · exact hl1
+  · simp only [Bool.false_eq_true, if_false] at hb
+    split at hb
+    · split at hb
+      · exact hardLinkSame_lf hl1 hb
+      · unfold copySame at hb
+        split at hb
+        · rw [← (Prod.mk.inj hb).1]; exact hl1
+        · exact deepCopyTo_lf hl1 hb
+    · split at hb
+      · rw [← (Prod.mk.inj hb).1]; exact hl1
+      · exact copyCross_lf hl1 hb
+
+theorem openFile_lf {fs : FS} (hl : LinkFreeFS fs) {f : String} {mode : Mode} {fs1 : FS}
+    (h : openFile fs f mode = .ok fs1) : LinkFreeFS fs1 := by
+  cases mode <;> simp only [openFile] at h
+  · simp only [Except.ok.injEq] at h; subst h; exact lf_setFile hl lf_emptyFile
+  · split at h
+    · simp only [Except.ok.injEq] at h; subst h; exact hl
+    · simp only [Except.ok.injEq] at h; subst h; exact lf_setFile hl lf_emptyFile
+  · split at h
+    · simp only [Except.ok.injEq] at h; subst h; exact hl
+    · simp at h
+
+theorem lf_rootParts {hh : H5File} (hl : LinkFree hh) (o c nx : Nat) : LinkFree ⟨rootParts hh.entries o c, nx⟩ := by
+  have hp := regionLF_parts o c
+  simp only [payloadParts, List.mem_cons, List.not_mem_nil, or_false, forall_eq_or_imp, forall_eq] at hp
+  obtain ⟨p1, p2, p3, p4⟩ := hp
+  simp only [rootParts, payloadParts, List.foldl_cons, List.foldl_nil]
+  have w1 := lf_putRegion hl ["bins"] p1 0
+  have w2 := lf_putRegion w1 ["chroms"] p2 0
+  have w3 := lf_putRegion w2 ["indexes"] p3 0
+  exact lf_putRegion w3 ["pixels"] p4 nx
+
+theorem createCooler_lf {fs : FS} (hl : LinkFreeFS fs) {f : String} {p : Path} {mode : Mode} {c : Nat} {fs' : FS}
+    {oc : Outcome} (h : createCooler fs f p mode c = (fs', oc)) : LinkFreeFS fs' := by
+  rcases createCooler_cases h with ⟨rfl, _⟩ | ⟨fs1, hh, ho, hg, hcase⟩
+  · exact hl
+  · have hl1 := openFile_lf hl ho
+    have hlh := hl1 f hh hg
+    rcases hcase with ⟨_, hc⟩ | ⟨x, _, hc⟩
+    · unfold createRoot at hc
+      split at hc
+      · split at hc
+        · rw [← (Prod.mk.inj hc).1]; exact hl1
+        · rw [← (Prod.mk.inj hc).1]
+          exact lf_setFile hl1 (lf_setEntry_group (h := ⟨rootParts hh.entries hh.next c, hh.next + 5⟩)
+            (lf_rootParts hlh _ _ _) _ _ _ _)
+      · rw [← (Prod.mk.inj hc).1]; exact hl1
+    · unfold createAt at hc
+      split at hc
+      · rw [← (Prod.mk.inj hc).1]; exact hl1
+      · rename_i h1 P hmk
+        split at hc
+        · rw [← (Prod.mk.inj hc).1]; exact hl1
+        · rw [← (Prod.mk.inj hc).1]
+          exact lf_setFile hl1 (lf_putRegion (mkdirP_lf fs1 f _ hh [] h1 P hlh hmk) _ (regionLF_coolerRegion _ _) _)
+
+theorem setNote_lf {fs : FS} (hl : LinkFreeFS fs) {f value : String} {fs' : FS} {oc : Outcome}
+    (h : setNote fs f value = (fs', oc)) : LinkFreeFS fs' := by
+  unfold setNote at h
+  split at h
+  · rw [← (Prod.mk.inj h).1]; exact hl
+  · rename_i fs1 ho
+    have hl1 := openFile_lf hl ho
+    split at h
+    · rw [← (Prod.mk.inj h).1]; exact hl1
+    · rename_i hh hg
+      split at h
+      · rw [← (Prod.mk.inj h).1]
+        exact lf_setFile hl1 (lf_setEntry_group (hl1 f hh hg) _ _ _ _)
+      · rw [← (Prod.mk.inj h).1]; exact hl1
+
+/-- an operation other than `ln -s` -/
+def noSoft : Op → Bool
+  | .ln _ _ _ _ s _ => !s
+  | _ => true
+
+theorem step_lf {fs : FS} (hl : LinkFreeFS fs) (v : Variant) (op : Op) (hop : noSoft op = true) :
+    LinkFreeFS (step v fs op).1 := by
+  cases op with
+  | create f p m c => exact createCooler_lf hl (rfl : createCooler fs f p m c = (_, _))
+  | cp sf sp df dp o => exact copyOp_lf hl (rfl : copyOp fs v sf sp df dp o false false false = (_, _))
+  | mv sf sp df dp o => exact copyOp_lf hl (rfl : copyOp fs v sf sp df dp o false true false = (_, _))
+  | ln sf sp df dp s o =>
+    have hs : s = false := by simpa [noSoft] using hop
+    subst hs
+    exact copyOp_lf hl (rfl : copyOp fs v sf sp df dp o true false false = (_, _))
+  | note f x => exact setNote_lf hl (rfl : setNote fs f x = (_, _))
+
+theorem run_lf (v : Variant) : ∀ (ops : List Op) (fs : FS), LinkFreeFS fs → (∀ op ∈ ops, noSoft op = true) →
+    LinkFreeFS (run v fs ops) := by
+  intro ops
+  induction ops with
+  | nil => intro fs hl _; exact hl
+  | cons op ops ih =>
+    intro fs hl hops
+    simp only [run, List.foldl_cons]
+    exact ih _ (step_lf hl v op (hops op (by simp))) (fun o ho => hops o (List.mem_cons_of_mem _ ho))
+
+/-- **list_exact after any history** of create / cp / mv / ln (hard) — everything but `ln -s` — from
+the empty file system, in the code as it is or in the specification: the listing of every file
+is exactly the set of paths `is_cooler` recognises. -/
+theorem list_exact_history (v : Variant) (ops : List Op) (hops : ∀ op ∈ ops, noSoft op = true)
+    (f : String) (h : H5File) (hg : getFile (run v [] ops) f = some h) (p : Path) :
+    p ∈ listCoolers (run v [] ops) f ↔ isCooler (run v [] ops) f p = true :=
+  list_exact hg (run_wf v ops [] wf_nil f h hg)
+    (run_lf v ops [] (fun f h hg => absurd hg (by simp [getFile])) hops f h hg) p
 end Cooler.C15
